@@ -22,6 +22,7 @@ func init() {
 			{"TAB-BASICNAMES", 30, ruleTabBasicNames},
 			{"TAB-SHIM", 40, ruleTabShim},
 			{"LAY-ONCE", 30, ruleLayOnce},
+			{"TAB-KEYWORDS", 25, ruleTabKeywords},
 		},
 	})
 }
@@ -630,4 +631,30 @@ func argsIndexes(c *Ctx, fl *ast.FuncLit, e ast.Expr, depth int) []int64 {
 	visit(e, depth)
 	sort.Slice(out, func(i, j int) bool { return out[i] < out[j] })
 	return out
+}
+
+// TAB-KEYWORDS: every Go keyword is a symbol of the parser.  A keyword that is missing
+// from the table is tokenized as an identifier, and the statement it introduces is then
+// compiled as a read of an undefined variable followed by whatever comes next:
+// `defer g()` runs g at once and `fallthrough` is a no-op — silently.  Listed keywords
+// either have a handler or fail with a parse error ("null nud"), never silently.
+func ruleTabKeywords(c *Ctx, r *R) {
+	rows, err := c.symbolTable()
+	if err != nil {
+		r.undecided("symbols", "-", err.Error())
+		return
+	}
+	n := 0
+	for tk := token.BREAK; tk <= token.VAR; tk++ {
+		if !tk.IsKeyword() {
+			continue
+		}
+		kw := tk.String()
+		n++
+		r.check(rows[kw] != nil, "keyword "+kw, "symbol.go", "is a parser symbol",
+			"the Go keyword `"+kw+"` is not in the parser's symbol table: it is tokenized as an identifier, so a statement that uses it is accepted and mis-executed without any error (e.g. `defer g()` calls g immediately and the function's result is lost; `fallthrough` does nothing)")
+	}
+	if n < 25 {
+		r.undecided("keywords", "-", "go/token keyword range not enumerated")
+	}
 }
